@@ -149,6 +149,10 @@ pub struct ProgGen<'g, 'r> {
     load_first: Vec<(usize, String)>,
     /// the same as a dedicated helper placed before all functions (name, hvN)
     line_helper: Option<(Func, String)>,
+    /// helpers that start by comparing their last (unsigned char) parameter with a constant (index, constant)
+    param_compare: Vec<(usize, i32)>,
+    /// optimizer stress: an inline function that only compares its parameter with a constant (function, constant)
+    cmp_helper: Option<(Func, i32)>,
     /// helpers that contain a call to themselves
     self_callers: HashSet<usize>,
 }
@@ -161,7 +165,7 @@ fn is8(t: Ty) -> bool {
 
 impl<'g, 'r> ProgGen<'g, 'r> {
     pub fn new(g: &'g mut G<'r>, cfg: GenCfg) -> Self {
-        ProgGen { g, cfg, globals: vec![], helpers: vec![], name_ctr: 0, labels: vec![], handover: None, pad_helper: None, load_first: vec![], line_helper: None, self_callers: HashSet::new() }
+        ProgGen { g, cfg, globals: vec![], helpers: vec![], name_ctr: 0, labels: vec![], handover: None, pad_helper: None, load_first: vec![], line_helper: None, param_compare: vec![], cmp_helper: None, self_callers: HashSet::new() }
     }
 
     fn label(&mut self, l: &'static str) {
@@ -1975,6 +1979,19 @@ impl<'g, 'r> ProgGen<'g, 'r> {
                 ];
             }
         }
+        if let Some((f, kc)) = self.cmp_helper.clone() {
+            let ph = crate::pbt::hash_str(&format!("{}:{}:{}:{}", a, b, k, fc.idx));
+            if ph % 5 == 0 && !fc.touched.contains("#sidefx") {
+                // an addition or subtraction leaves its carry, then the comparison of a constant with a constant
+                // follows at once (expanded in line): the branches on the carry need the comparison
+                let op = if ph / 5 % 2 == 0 { BinOp::Add } else { BinOp::Sub };
+                let arg = (kc + (ph / 10 % 7) as i32 - 3).max(0);
+                return vec![
+                    Stmt::Expr(Expr::assign(LValue::Var(a.clone()), Expr::bin(op, Expr::var(&b), Expr::lit(1 + (ph / 70 % 200) as i32)))),
+                    Stmt::Expr(Expr::Call(f.name.clone(), vec![Expr::lit(arg)])),
+                ];
+            }
+        }
         let pick = self.g.below(if self.cfg.addr_low_byte { 56 } else { 53 });
         // (38..40 need cfg.addr_low_byte; the numbering of the other patterns is kept)
         let pick = if !self.cfg.addr_low_byte && pick >= 38 { pick + 3 } else { pick };
@@ -2657,6 +2674,7 @@ impl<'g, 'r> ProgGen<'g, 'r> {
                     let k = self.g.range(1, 9) as i32;
                     let first_non_decl = body.iter().position(|s| !matches!(s, Stmt::Decl(_))).unwrap_or(body.len());
                     self.label("unsigned-parameter-compare");
+                    self.param_compare.push((idx, k));
                     body.insert(
                         first_non_decl,
                         Stmt::If(
@@ -2841,6 +2859,26 @@ impl<'g, 'r> ProgGen<'g, 'r> {
             });
             self.label("sized-asm-helper");
         }
+        // (decided by a hash of the globals, not by the generator's stream: the other programs stay what they were)
+        let gh = crate::pbt::hash_str(&self.globals.iter().map(|g| format!("{}:{:?};", g.name, g.ty)).collect::<String>());
+        if self.cfg.opt_stress && self.cfg.inline_permille > 0 && gh % 6 == 0 {
+            let t8: Vec<String> = self.globals.iter().filter(|g| g.kind == VarKind::Scalar && is8(g.ty) && g.mem == MemQual::Default && !g.name.starts_with("hv")).map(|g| g.name.clone()).collect();
+            if !t8.is_empty() {
+                let t = t8[(gh / 6 % t8.len() as u64) as usize].clone();
+                let k = 1 + (gh / 600 % 8) as i32;
+                let op = [BinOp::Le, BinOp::Gt, BinOp::Le, BinOp::Gt, BinOp::Lt, BinOp::Ge][(gh / 6000 % 6) as usize];
+                let body = vec![Stmt::If(
+                    Expr::bin(op, Expr::var("zp"), Expr::lit(k)),
+                    Box::new(Stmt::Expr(Expr::assign(LValue::Var(t.clone()), Expr::lit(1)))),
+                    Some(Box::new(Stmt::Expr(Expr::assign(LValue::Var(t), Expr::lit(2))))),
+                )];
+                self.cmp_helper = Some((
+                    Func { name: "zcmp".into(), ret: None, params: vec![("zp".into(), Ty::U8)], body, inline: gh / 60000 % 6 != 0, interrupt: false, proto: false, bank: 0 },
+                    k,
+                ));
+                self.label("compare-only-helper");
+            }
+        }
         if self.cfg.hw && self.g.chance(1, 3) {
             let hvn = format!("hv{}", 1 + self.g.below(3));
             let second = if self.g.chance(1, 2) { Stmt::Store(LValue::Var(format!("hv{}", 1 + self.g.below(3)))) } else { Stmt::Strobe(LValue::Var(format!("HR{}", 1 + self.g.below(2)))) };
@@ -2892,6 +2930,9 @@ impl<'g, 'r> ProgGen<'g, 'r> {
             funcs.insert(0, p.clone());
         }
         if let Some((f, _)) = &self.line_helper {
+            funcs.insert(0, f.clone());
+        }
+        if let Some((f, _)) = &self.cmp_helper {
             funcs.insert(0, f.clone());
         }
         funcs.push(main);
